@@ -103,3 +103,40 @@ def handleCross (kind : String) : Parser String := do
   | _, _ => fun _ => none
 
 end Drv
+
+namespace Drv
+open Pm
+
+/-- EXTG: port-graph extension chains. For i < j every root image reported in host i for a
+pattern must be reported, transported by the composed node map, in host j. Patterns inside the
+known-finding signature are reported as KNOWN (the secondary-root search is context dependent). -/
+def handleEXTG : Parser String := do
+  let pats ← pList (pPair pGraph (pOpt pNat))
+  let rhos ← pList (pList pNat)
+  let many ← pList (pList (pPair pNat pPGMap))
+  let naive ← pList (pOpt (pList (pPair pNat pPGMap)))
+  -- node map from host i to host j (i ≤ j)
+  let transport := fun (i j : Nat) (x : Nat) =>
+    (List.range (j - i)).foldl (fun v k => (rhos.getD (i + k) []).getD v v) x
+  let roots := fun (ms : List (Nat × PGMap)) => ms.filterMap fun (p, m) => (alGet m (.root 0)).map fun r => (p, r)
+  let check := fun (name : String) (lists : List (List (Nat × PGMap))) =>
+    (List.range lists.length).flatMap fun i =>
+      (List.range lists.length).flatMap fun j =>
+        if i < j then
+          let later := roots (lists.getD j [])
+          (roots (lists.getD i [])).filterMap fun (p, r) =>
+            if later.contains (p, transport i j r) then none
+            else some (p, s!"{name}: pattern {p} reported at node {r} of host {i} but not at node {transport i j r} of extended host {j}")
+        else []
+  let bad := check "automaton" many ++ check "baseline" (naive.map fun o => o.getD [])
+  let (known, new) := bad.partition fun (p, _) => match pats[p]? with
+    | some pat => (pgKnown pat).isSome
+    | none => false
+  let total := (many.map (·.length)).sum
+  match new.head? with
+  | some (_, msg) => pure s!"ORACLE-FAIL C11 {msg}"
+  | none =>
+    if known.isEmpty then pure s!"ok hosts={many.length} matches={total} {if total > 0 then "nt" else ""}"
+    else pure s!"KNOWN hosts={many.length} matches={total} nt ;; KNOWN C11 pg:multiRoot"
+
+end Drv
